@@ -1574,7 +1574,7 @@ func c10ApplyAfterNameCheck(x *c10x, rule string) {
 			n++
 			ok := eng.GuardedByNil(ci, func(v ssa.Value) bool {
 				cc, _ := eng.CallResultOf(v)
-				return cc != nil && cc.Parent() == fn && isPreCheck(eng.CalleeFn(cc), 0)
+				return cc != nil && isPreCheck(eng.CalleeFn(cc), 0)
 			}, true)
 			c.Check(rule, fn, x.nth(fn, shortName(eng.FullName(ci))+" only after the conflict pre-check == nil"), ci.Pos(), ok,
 				"the object is applied to the cluster before (or without) its names being checked against their current holders: a refused update has already replaced the cluster's server-name list, later syncs see no difference and never register the name")
